@@ -455,3 +455,38 @@ func loadMutantOverlay(id string) map[string][]byte {
 }
 
 func selftestMain(args []string) int { return 2 }
+
+func init() {
+	reg(&CheckDef{
+		ID:   "C07",
+		Meta: "fit.Hmeta",
+		Jobs: func(tier string, meta map[string]int) []Job {
+			mode := 0
+			if tier == "thorough" {
+				mode = 1
+			}
+			var js []Job
+			seen := map[int]bool{}
+			for ti := 0; ti < 17; ti++ {
+				for i := 0; i < meta[fmt.Sprintf("nhost_%d", ti)]; i++ {
+					g := meta[fmt.Sprintf("host_%d_%d", ti, i)]
+					if seen[g] && tier != "thorough" {
+						continue // quick: each message once, in the first file type that hosts it
+					}
+					seen[g] = true
+					js = append(js, job("fit", "H07a", "ti", ti, "gmn", g, "mode", mode))
+				}
+			}
+			js = append(js, job("fit", "H07a", "ti", 3, "gmn", 0, "mode", mode), job("fit", "H07a", "ti", 3, "gmn", 49, "mode", mode), job("fit", "H07a", "ti", 3, "gmn", 162, "mode", mode),
+				job("fit", "H07a", "ti", 3, "gmn", 206, "mode", mode), job("fit", "H07a", "ti", 3, "gmn", 207, "mode", mode))
+			return js
+		},
+		MustReach: []string{"C07.encode-accepts-decoded", "C07.output-passes-checkintegrity", "C07.output-decodes", "C07.second-encode", "C07.fixpoint", "C07.counts", "roundtrip"},
+		Bounds: map[string]interface{}{
+			"quick":    "one message produced by the real record parser from any accepted single-field definition of a string or array field (every hosted message, both byte orders, arbitrary data) stored in a File as Decode stores it; strings: sizes 1-3 fully symbolic and sizes L-1, L, L+1 around the profile length L with an ASCII prefix and three arbitrary final bytes; arrays: up to 4 elements, the profile length, one more, and 255 bytes; then Encode, CheckIntegrity, Decode, Encode, Decode",
+			"thorough": "as quick for every field (scalars included) and every hosting file type",
+		},
+		Outside: []string{"inputs with several records or several fields per definition; whole device files; strings with more than three non-ASCII bytes"},
+		Assumptions: append([]string{"M-reflect, M-binary-write; unicode/utf8 executed from the standard library's SSA"}, commonAssumptions...),
+	})
+}
